@@ -193,6 +193,19 @@ class Env:
             elif k == "Closure":
                 for p in n.get("params", []):
                     self._bind_params(p)
+        # `let mut it = <iterator>; it.all(..)`: a mutable local that is never assigned, never borrowed explicitly and used exactly
+        # once is the value of its initialiser at that one use
+        if self.mut_inits:
+            uses = {}
+            for n, _ in walk(body):
+                if n.get("k") == "Path" and n["to"].get("res") == "local" and n["to"].get("id") in self.mut_inits:
+                    uses[n["to"]["id"]] = uses.get(n["to"]["id"], 0) + 1
+            for lid, init in self.mut_inits.items():
+                if uses.get(lid, 0) == 1 and self.assigned.get(lid, 0) == 0 and not self._reads_mutable_state(init):
+                    self.defs[lid] = init
+                    self.mutable.discard(lid)
+
+    mut_inits = None
 
     def _bind_params(self, pat):
         if pat["k"] == "PBind":
@@ -205,7 +218,11 @@ class Env:
         if k == "PBind" and not pat.get("sub"):
             if "Mut" in pat.get("mode", "") and "Not)" not in pat.get("mode", ""):
                 self.mutable.add(pat["id"])
-                return      # `let mut x`: never substituted (its value may change, also through &mut self calls)
+                if not refutable:
+                    if self.mut_inits is None:
+                        self.mut_inits = {}
+                    self.mut_inits[pat["id"]] = init
+                return      # `let mut x`: not substituted (its value may change, also through &mut self calls) - but see the end of __init__
             if not refutable and not self._reads_mutable_state(init):
                 self.defs[pat["id"]] = init
             elif not refutable:
@@ -1489,6 +1506,9 @@ def fold(t, assume, discr=None, helpers=None, evalcalls=None):
                 if r_[0] in ("lit", "variant"):
                     return r_       # the helper's table decides under the current assumptions; otherwise keep the call
             ck = _callee_key(t[1])
+            if ck.endswith("OnceCell::<T>::get_or_init") and len(args) == 2 and isinstance(args[1], tuple) and args[1][:1] == ("closure",) \
+                    and not args[1][1]:
+                return f(args[1][2])      # a lazily computed value is the value of its initialiser
             if evalcalls and isinstance(t[1], str) and t[1] in evalcalls:
                 r_ = evalcalls[t[1]](args)
                 if r_ is not None:
